@@ -23,7 +23,7 @@ fn get_file_name(path: &Path) -> Result<String> {
 fn get_parent_and_file_name(path: &Path) -> Result<(String, String)> {
     let parent = get_parent_as_string(path)?;
     let file_name = get_file_name(path)?;
-    if parent.trim().is_empty() {
+    if parent.is_empty() {
         Ok((file_name, String::new()))
     } else {
         Ok((parent, file_name))
